@@ -27,7 +27,40 @@ pub(crate) enum Ev {
     Pending,
     Chunk(usize),
     Eof,
-    Err,
+    /// a failure of the given kind (index into ERROR_KINDS)
+    Err(usize),
+}
+
+/// The io::ErrorKind variants injected as carrier failures; the same list, in the same order, as
+/// tools/gen_c04_tables.py (coq/gen/C04Tables.v: EK_PERMISSION_DENIED = 1, EK_BROKEN_PIPE = 8, EK_WRITE_ZERO = 14).
+pub(crate) const ERROR_KINDS: [io::ErrorKind; 20] = [
+    io::ErrorKind::NotFound,
+    io::ErrorKind::PermissionDenied,
+    io::ErrorKind::ConnectionRefused,
+    io::ErrorKind::ConnectionReset,
+    io::ErrorKind::ConnectionAborted,
+    io::ErrorKind::NotConnected,
+    io::ErrorKind::AddrInUse,
+    io::ErrorKind::AddrNotAvailable,
+    io::ErrorKind::BrokenPipe,
+    io::ErrorKind::AlreadyExists,
+    io::ErrorKind::WouldBlock,
+    io::ErrorKind::InvalidInput,
+    io::ErrorKind::InvalidData,
+    io::ErrorKind::TimedOut,
+    io::ErrorKind::WriteZero,
+    io::ErrorKind::Interrupted,
+    io::ErrorKind::Unsupported,
+    io::ErrorKind::UnexpectedEof,
+    io::ErrorKind::OutOfMemory,
+    io::ErrorKind::Other,
+];
+const _: () = assert!(matches!(ERROR_KINDS[1], io::ErrorKind::PermissionDenied)
+    && matches!(ERROR_KINDS[8], io::ErrorKind::BrokenPipe)
+    && matches!(ERROR_KINDS[14], io::ErrorKind::WriteZero));
+
+fn scripted_error(k: usize) -> io::Error {
+    io::Error::new(ERROR_KINDS[k % ERROR_KINDS.len()], "scripted")
 }
 
 #[derive(Default)]
@@ -69,7 +102,7 @@ impl AsyncRead for Carrier {
         match ev {
             None | Some(Ev::Pending) => Poll::Pending,
             Some(Ev::Eof) => Poll::Ready(Ok(())),
-            Some(Ev::Err) => Poll::Ready(Err(io::Error::new(io::ErrorKind::BrokenPipe, "scripted"))),
+            Some(Ev::Err(k)) => Poll::Ready(Err(scripted_error(k))),
             Some(Ev::Chunk(n)) => {
                 let avail = s.rd_wire.len() - s.rd_pos;
                 let k = n.min(buf.remaining()).min(avail);
@@ -89,8 +122,8 @@ impl AsyncWrite for Carrier {
         s.note(matches!(ev, None | Some(Ev::Pending)), cx);
         match ev {
             None | Some(Ev::Pending) => Poll::Pending,
-            Some(Ev::Err) | Some(Ev::Eof) =>
-                Poll::Ready(Err(io::Error::new(io::ErrorKind::BrokenPipe, "scripted"))),
+            Some(Ev::Err(k)) => Poll::Ready(Err(scripted_error(k))),
+            Some(Ev::Eof) => Poll::Ready(Err(scripted_error(8))),
             Some(Ev::Chunk(n)) => {
                 let k = n.min(buf.len());
                 s.sent.extend_from_slice(&buf[..k]);
@@ -104,8 +137,8 @@ impl AsyncWrite for Carrier {
         s.note(matches!(ev, None | Some(Ev::Pending)), cx);
         match ev {
             None | Some(Ev::Pending) => Poll::Pending,
-            Some(Ev::Err) | Some(Ev::Eof) =>
-                Poll::Ready(Err(io::Error::new(io::ErrorKind::BrokenPipe, "scripted"))),
+            Some(Ev::Err(k)) => Poll::Ready(Err(scripted_error(k))),
+            Some(Ev::Eof) => Poll::Ready(Err(scripted_error(8))),
             Some(Ev::Chunk(_)) => Poll::Ready(Ok(())),
         }
     }
@@ -115,8 +148,8 @@ impl AsyncWrite for Carrier {
         s.note(matches!(ev, None | Some(Ev::Pending)), cx);
         match ev {
             None | Some(Ev::Pending) => Poll::Pending,
-            Some(Ev::Err) | Some(Ev::Eof) =>
-                Poll::Ready(Err(io::Error::new(io::ErrorKind::BrokenPipe, "scripted"))),
+            Some(Ev::Err(k)) => Poll::Ready(Err(scripted_error(k))),
+            Some(Ev::Eof) => Poll::Ready(Err(scripted_error(8))),
             Some(Ev::Chunk(_)) => {
                 s.shut = true;
                 Poll::Ready(Ok(()))
@@ -179,7 +212,14 @@ pub(crate) fn parse_script(c: &mut Cur, read: bool) -> Option<Vec<Ev>> {
             }
             2 if read => Ev::Eof,
             2 => return None,
-            3 => Ev::Err,
+            3 => Ev::Err(8),
+            4 => {
+                let k = c.next()?;
+                if k as usize >= ERROR_KINDS.len() {
+                    return None;
+                }
+                Ev::Err(k as usize)
+            }
             _ => return None,
         });
     }
@@ -683,7 +723,8 @@ pub(crate) fn push_script(c: &mut Vec<u64>, evs: &[Ev]) {
             Ev::Pending => c.push(0),
             Ev::Chunk(n) => c.extend([1, *n as u64]),
             Ev::Eof => c.push(2),
-            Ev::Err => c.push(3),
+            Ev::Err(8) => c.push(3),
+            Ev::Err(k) => c.extend([4, *k as u64]),
         }
     }
 }
@@ -706,7 +747,8 @@ pub(crate) fn gen_script(rng: &mut Rng, total: u64, calls_hint: u64, read: bool,
             evs.push(if rng.chance(50) {
                 if read { Ev::Eof } else { Ev::Chunk(0) } // end of stream / carrier accepts nothing
             } else {
-                Ev::Err
+                // every error kind the carrier may report, PermissionDenied (what a refusal looks like) more often
+                Ev::Err(if rng.chance(25) { 1 } else { rng.below(ERROR_KINDS.len() as u64) as usize })
             });
             continue;
         }
